@@ -12,6 +12,7 @@ import Lockable.Proofs.Refine
 import Lockable.Props.C01
 import Lockable.Props.C02
 import Lockable.Props.C04
+import Lockable.Proofs.SpecTrace
 namespace Lockable
 
 /-- the key is neither locked nor awaited: no guard for it, and no pending acquisition was handed or is queued for it -/
@@ -245,6 +246,35 @@ example :
     let a2 := (a1.exec (.drop 1)).1
     (match (a2.exec (.lock .try 3 7 .none 100)).2.res with | .none => true | _ => false) = true ∧
     (match ((a2.exec (.poll 2)).1.exec (.lock .try 4 7 .none 100)).2.res with | .none => true | _ => false) = true := by
+  decide
+
+
+/-- **Theorem C (linearisation)**: the abstract history of every run of the core model — all acquisition variants, guard
+methods, drops, cancellations, scans, by any number of threads in any interleaving — is an execution of the atomic
+specification `Spec` (a plain key → value map, at most one guard per key, FIFO waiters), every event being *enabled*
+in the specification when it happens, and ends in the abstraction of the final state. No sequential-client
+assumption (contrast `C05_refines`). -/
+theorem C05_linearizable (kind : Kind) (as : List Act) :
+    applyEvs Spec.init (evsRun (State.init kind) as) = some (absSpec (run (State.init kind) as)) :=
+  lin_reachable kind as
+
+/-- … where a try succeeds exactly when the specification says the key is free, -/
+theorem C05_try_iff_free (kind : Kind) (as : List Act) (h : Nat) (hd : Handle)
+    (hh : (run (State.init kind) as).hs h = some hd) (hst : hd.st = .replica) :
+    (tryKey (run (State.init kind) as) h).2 = .bool true ↔ (absSpec (run (State.init kind) as)).free hd.key = true :=
+  try_iff_free _ (inv_reachable kind as) h hd hh hst
+
+/-- … and only the guard of a key writes its value or releases it. -/
+theorem C05_only_guard_acts (k h : Nat) (e : SEv) (sp sp₁ : Spec) (he : applyEv sp e = some sp₁)
+    (hact : e = .release h k ∨ ∃ v, e = .write h k v) : sp.held k = some h :=
+  only_guard_acts k h e sp sp₁ he hact
+
+/-- non-vacuity of `C05_linearizable`: an interleaving with an insertion, a failed try, a hand-off and a cancellation -/
+example :
+    evsRun (State.init .lru)
+      [.lookup 1 7, .gop 1 (.insert 5), .lookup 2 7, .tryKey 2, .lookup 3 7, .enqueue 3, .lookup 4 7, .enqueue 4,
+       .cleanupFailed 2, .cancel 3, .stamp 1, .release 1, .acquire 4, .gop 4 .remove] =
+      [.acquire 1 7, .write 1 7 (some 5), .wait 3 7, .wait 4 7, .leave 3 7, .release 1 7, .grant 4 7, .write 4 7 none] := by
   decide
 
 end Lockable
